@@ -70,6 +70,13 @@ STMTS = {
     "stack_pow2_plus_one": (["pw := []", "for (j <- 0 til P2) (pw append= j)"], "pop pw; pw append= i", "len(pw)", lambda n: 2 ** (n.bit_length() - 1) + 1),
     # op-assignment through an `and` lvalue updates both targets, each in place
     "and_lvalue_append": (["la := []", "lb := [0]"], "(la and lb) append= i", "len(la) + len(lb)", lambda n: 2 * n + 1),
+    # a loop whose condition IS the collection (work-queue idiom): the condition's value must not stay alive during the body
+    "while_cond_is_collection": (["wq := 0 .* (N + 1)"], "(while (wq) (pop wq; break))", "len(wq)", lambda n: 1),
+    # ++= whose right operand is still held elsewhere (a variable, a literal's buffer): only the left side has to be unshared
+    "list_concat_var": (["lv := []", "lw := [1, 2]"], "lv ++= lw", "len(lv)", lambda n: 2 * n),
+    "bytes_concat_literal": (["bv := B\"\""], "bv ++= B\"ab\"", "len(bv)", lambda n: 2 * n),
+    "rows_concat_var": (["rv := [[], 0]", "rw := [1]"], "rv[0] ++= rw", "len(rv[0])", lambda n: n),
+    "vector_concat_var": (["vv := V()", "vw := V(1, 2)"], "vv ++= vw", "len(vv)", lambda n: 2 * n),
     # strings are collections too (Seq::String): one-character slot assignment on an unaliased string of 8n bytes
     "string_set": (["s8 := 'a' $* (8*N)"], "s8[i] = 'b'", "len(s8 filter (== 'b'))", lambda n: n),
     "string_nested_set": (["sn8 := ['a' $* (8*N)]"], "sn8[0][i] = 'b'", "len(sn8[0] filter (== 'b'))", lambda n: n),
